@@ -3,8 +3,10 @@
 (* Monitor for C17.  Events:                                               *)
 (*  Match{pats, compiled, results: <<path, matched>>...}  real CompileGlobs *)
 (*        on pats and MatchString on every path                            *)
-(*  Glob{include, exclude, files, result}   the glob() builtin / ignore    *)
-(*        list on a generated tree: files = all candidate relative paths   *)
+(*  Glob{include, exclude, files, result}   the glob() builtin on a         *)
+(*        generated tree: files = all candidate relative paths             *)
+(*  Ignore{pats, dirs, loaded, err}   a project loaded with an ignore list: *)
+(*        dirs = its package directories, loaded = those whose targets exist*)
 (***************************************************************************)
 EXTENDS Glob, SequencesExt
 MonInit(c) == [n |-> 0, viol |-> {}]
@@ -22,8 +24,17 @@ LOCAL OnGlob(e, m) ==
     LET want == { f \in ToSet(e.files) : SetMatches(e.include, f) /\ ~SetMatches(e.exclude, f) } IN
     IF want = ToSet(e.result) THEN m
     ELSE V(m, "glob() did not select exactly the files matching include and not exclude", <<e.include, e.exclude>>)
+\* ignore list: a package directory is loaded iff neither it nor a directory above it (the
+\* root included) matches the set - the loader does not descend into an ignored directory
+LOCAL DirPrefixes(d) == {""} \cup { SubSeq(d, 1, i) : i \in { j \in 1..Len(d) : j = Len(d) \/ SubSeq(d, j + 1, j + 1) = "/" } }
+LOCAL OnIgnore(e, m) ==
+    IF e.err # "" THEN V(m, "loading a project with an ignore list failed", e.pats)
+    ELSE LET want == { d \in ToSet(e.dirs) : \A p \in DirPrefixes(d) : ~SetMatches(e.pats, p) } IN
+         IF want = ToSet(e.loaded) THEN m
+         ELSE V(m, "the ignore list did not exclude exactly the directories its patterns match", e.pats)
+
 Mon(e, m0) ==
-    LET m1 == CASE e.ev = "Match" -> OnMatch(e, m0) [] e.ev = "Glob" -> OnGlob(e, m0) [] OTHER -> m0
+    LET m1 == CASE e.ev = "Match" -> OnMatch(e, m0) [] e.ev = "Glob" -> OnGlob(e, m0) [] e.ev = "Ignore" -> OnIgnore(e, m0) [] OTHER -> m0
     IN [m1 EXCEPT !.n = @ + 1]
 RunMon(c, es) == FoldLeft(LAMBDA m, e : Mon(e, m), MonInit(c), es)
 =============================================================================
